@@ -346,6 +346,7 @@ class FormulaMaterializer(metaclass=FormulaMaterializerMeta):
         ensure_full_rank = set()
         factors: set[Factor] = set()
         transform_state = {}
+        encoder_state = {}
 
         def update_pooled_spec(model_spec: ModelSpec) -> None:
             output.add(model_spec.output)
@@ -357,6 +358,7 @@ class FormulaMaterializer(metaclass=FormulaMaterializerMeta):
             transform_state.update(
                 model_spec.transform_state
             )  # TODO: Check for consistency?
+            encoder_state.update(model_spec.encoder_state)
 
         model_specs._map(update_pooled_spec)
 
@@ -373,6 +375,7 @@ class FormulaMaterializer(metaclass=FormulaMaterializerMeta):
                 na_action=next(iter(na_action)),
                 output=next(iter(output)),
                 transform_state=transform_state,
+                encoder_state=encoder_state,
             ),
         )
 
